@@ -124,6 +124,25 @@ def run(ctx, spec):
                 wb = {"cn2_shape": shape, "second_shape": shp2, "axis": axis, "lambda": lam}
                 if ctx.check(np.shape(got) == want.shape, name + ":axis_vs_loop:broadcast_second_argument:shape", "result shape %s, expected %s" % (np.shape(got), want.shape), wb):
                     rel(ctx, name + ":axis_vs_loop_broadcast", np.asarray(got), want, T, name + ":axis_vs_loop:broadcast_second_argument", wb)
+        # ragged profiles stacked as masked arrays (padded entries masked, holding a sentinel): the integral over a masked stack is
+        # the loop over the unpadded profiles
+        nprof, nmax_l = int(rng.integers(2, 5)), int(rng.integers(2, 7))
+        lens = [int(rng.integers(1, nmax_l + 1)) for _ in range(nprof)]
+        cm = np.ma.masked_all((nprof, nmax_l))
+        sm_h, sm_v = np.ma.masked_all((nprof, nmax_l)), np.ma.masked_all((nprof, nmax_l))
+        for q, ln in enumerate(lens):
+            cm[q, :ln] = 10 ** rng.uniform(-16, -13, ln)
+            sm_h[q, :ln] = 10 ** rng.uniform(1, 4.3, ln)
+            sm_v[q, :ln] = 10 ** rng.uniform(0, 1.7, ln)
+        for arr in (cm, sm_h, sm_v):
+            arr.data[arr.mask] = 9999.0                  # what lies under the mask must not matter
+        ctx.case("masked_profiles", key=("masked", tuple(lens), float(cm.compressed()[0])), nontrivial=True, sample={"layers_per_profile": lens})
+        for name, fn, second in (("isoplanaticAngle", ac.isoplanaticAngle, sm_h), ("coherenceTime", ac.coherenceTime, sm_v), ("rytov_variance", ac.rytov_variance, sm_h)):
+            for ax, (a_, b_) in ((-1, (cm, second)), (0, (cm.T, second.T))):
+                got = np.ma.filled(fn(a_, b_, lam, ax), np.nan)
+                want = np.array([fn(np.asarray(cm[q, :ln]), np.asarray(second[q, :ln]), lam) for q, ln in enumerate(lens)])
+                ctx.count("masked_profile_cases")
+                rel(ctx, name + ":masked_stack_vs_loop", np.asarray(got, dtype=float), want, T, name + ":axis_vs_loop:masked_array_profiles", {"layers_per_profile": lens, "axis": ax})
         # one Cn2 profile against a stack of wind / altitude profiles (broadcasting), integer-typed altitudes and winds
         nl = int(rng.integers(2, 7))
         c1 = 10 ** rng.uniform(-16, -13, nl)
